@@ -9,10 +9,28 @@ import numpy as np
 from . import customedges as CE, edgecases as E, gs, refmodel as R
 
 
-def edge_descr(edge):
-    """(tag, kinds, ops, z, off, info) of a live edge, from stored numbers."""
-    kinds = [gs.kind_of(v.pose) for v in edge.vertices]
-    ops = [gs.stored(v.pose) for v in edge.vertices]
+def resolve(graph, edge):
+    """The graph's vertices named by the edge's ids (what the edge constrains *in this graph*), looked up by id in the graph's
+    vertex list - independently of the object links the library keeps in edge.vertices.  Falls back to edge.vertices if the
+    graph's ids are not unique."""
+    by_id = {}
+    for v in graph._vertices:
+        if v.id in by_id:
+            return list(edge.vertices)
+        by_id[v.id] = v
+    try:
+        return [by_id[i] for i in edge.vertex_ids]
+    except KeyError:
+        return list(edge.vertices)
+
+
+def edge_descr(edge, verts=None):
+    """(tag, kinds, ops, z, off, info) of a live edge, from stored numbers.  `verts`: the vertices it constrains
+    (default: the objects the library linked)."""
+    if verts is None:
+        verts = edge.vertices
+    kinds = [gs.kind_of(v.pose) for v in verts]
+    ops = [gs.stored(v.pose) for v in verts]
     info = np.array(edge.information, dtype=float)
     if isinstance(edge, gs.EdgeOdometry):
         return ("odo:" + kinds[0], kinds, ops, gs.stored(edge.estimate), None, info)
@@ -56,7 +74,7 @@ def chi2(graph):
     """Reference chi^2 of the live graph (explicit double sums)."""
     tot = 0.0
     for edge in graph._edges:
-        d = edge_descr(edge)
+        d = edge_descr(edge, resolve(graph, edge))
         e = edge_error(d)
         if _is_se2_pose_error(d):
             e[2] = R.wrap(e[2])
@@ -86,14 +104,15 @@ def system(graph):
     b = np.zeros(N)
     tot = 0.0
     for edge in graph._edges:
-        d = edge_descr(edge)
+        ev = resolve(graph, edge)
+        d = edge_descr(edge, ev)
         e, Js = edge_error_jacobians(d)
         if _is_se2_pose_error(d):
             e = e.copy()
             e[2] = R.wrap(e[2])
         om = d[5]
         tot += float(R.chi2(list(e), om))
-        idx = [pos[id(v)] for v in edge.vertices]
+        idx = [pos[id(v)] for v in ev]
         for a, Ja in zip(idx, Js):
             b[sl[a]] += Ja.T @ (om @ e)
             for c, Jc in zip(idx, Js):
